@@ -1109,13 +1109,14 @@ impl<'a, R: Read + Seek> BlocksToFileReader<'a, R> {
 impl<T: Read + Seek> Read for BlocksToFileReader<'_, T> {
     fn read(&mut self, into: &mut [u8]) -> io::Result<usize> {
         let (remaining, count) = match self.state {
-            BlocksToFileReaderState::Ready => {
+            // Loop (rather than recurse) over the blocks of other files
+            BlocksToFileReaderState::Ready => loop {
                 // Start a new block FileContent
                 match ArchiveFileBlock::from(&mut self.src)? {
                     ArchiveFileBlock::FileContent { length, id, .. } => {
                         if id != self.id {
                             self.move_to_next_block()?;
-                            return self.read(into);
+                            continue;
                         }
                         let count = self.src.by_ref().take(length).read(into)?;
                         let length_usize = usize::try_from(length).map_err(|_| {
@@ -1124,12 +1125,12 @@ impl<T: Read + Seek> Read for BlocksToFileReader<'_, T> {
                                 "Length conversion failed",
                             )
                         })?;
-                        (length_usize - count, count)
+                        break (length_usize - count, count);
                     }
                     ArchiveFileBlock::EndOfFile { id, .. } => {
                         if id != self.id {
                             self.move_to_next_block()?;
-                            return self.read(into);
+                            continue;
                         }
                         self.state = BlocksToFileReaderState::Finish;
                         return Ok(0);
@@ -1137,7 +1138,7 @@ impl<T: Read + Seek> Read for BlocksToFileReader<'_, T> {
                     ArchiveFileBlock::FileStart { id, .. } => {
                         if id != self.id {
                             self.move_to_next_block()?;
-                            return self.read(into);
+                            continue;
                         }
                         return Err(Error::WrongReaderState(
                             "[BlocksToFileReader] Start with a wrong block type".to_string(),
@@ -1151,7 +1152,7 @@ impl<T: Read + Seek> Read for BlocksToFileReader<'_, T> {
                         .into());
                     }
                 }
-            }
+            },
             BlocksToFileReaderState::InFile(remaining) => {
                 let count = self.src.by_ref().take(remaining as u64).read(into)?;
                 (remaining - count, count)
